@@ -177,10 +177,51 @@ def upView (l : List Bytes) : List Bytes := (l.map norm).filter (fun g => !isNul
 /-- downlink payload view: normalised, idle acks dropped -/
 def downView (l : List Bytes) : List Bytes := (l.map norm).filter (fun g => !isIdle g)
 
+/-! ### the link-error rule -/
+
+/-- `run` = number of consecutive unacknowledged transmissions so far.  The count restarts at every acknowledgement;
+an error is reported exactly at the transmission that makes the run reach `n`. -/
+def specErrs (n : Nat) : Nat → List Bool → List Bool
+  | _, [] => []
+  | _, true :: r => false :: specErrs n 0 r
+  | run, false :: r => (run + 1 == n) :: specErrs n (run + 1) r
+
+/-- For every transmission of the data loop in a run of the driver thread: was it acknowledged, and did the loop
+call `link_error_callback('Too many packets lost')` while processing it. -/
+def dataTrace (h : Host) : List Op → List (Bool × Bool)
+  | [] => []
+  | op :: ops =>
+    (match op with
+     | .tx (.resp a) =>
+       if h.negLeft = 0 ∧ h.dead = false then [(a.ack, (h.tx (.resp a)).2.contains (.err .tooManyLost))] else []
+     | _ => []) ++ dataTrace (h.apply op).1 ops
+
+/-- the radio answered (no USB failure: those are link failures in their own right) -/
+def Op.Answered : Op → Prop
+  | .tx .none => False
+  | .tx .exc => False
+  | _ => True
+
+/-- answers the driver thread got to its negotiation requests, in order (at most `Gen.safelinkAttempts`) -/
+def negAnswers (h : Host) : List Op → List Ans
+  | [] => []
+  | op :: ops =>
+    (match op with
+     | .tx a => if h.negLeft ≠ 0 ∧ h.dead = false then [a] else []
+     | _ => []) ++ negAnswers (h.apply op).1 ops
+
+/-- the exact echo of the safelink request -/
+def isEcho : Ans → Bool
+  | .resp a => a.data == bytesOfNats Gen.C01.safelinkEcho
+  | _ => false
+
 /-- the application does not inject safelink control frames -/
 def SysOp.WF : SysOp → Prop
   | .sub p => isCtl p.frame = false
   | .queue f => f ≠ []
   | _ => True
+
+instance (op : SysOp) : Decidable op.WF := by
+  cases op <;> simp only [SysOp.WF] <;> infer_instance
 
 end CfVerif.C01
